@@ -3,6 +3,7 @@
 tier=$1; shift
 cd "$(dirname "$0")/.."
 props=$(/venv/bin/python -c "import json;print(' '.join(c['property_id'] for c in json.load(open('MANIFEST.json'))['checks']))" 2>/dev/null)
+[ -n "$SWEEP_PROPS" ] && props=$SWEEP_PROPS     # optional subset, e.g. SWEEP_PROPS="C03 C17"
 mkdir -p /tmp/sweep
 for seed in "$@"; do
   for p in $props; do
